@@ -26,9 +26,12 @@ REGISTRY = {}
 class Obligation(object):
     def __init__(self, oid, fn, shapes, functions, assumes, patches=None,
                  title="", max_paths=20000, timeout=(120, 900),
-                 query_timeout=(60, 600)):
+                 query_timeout=(60, 600), also=()):
         self.id = oid
         self.prop = oid.split(".")[0]
+        # other properties whose check also runs this obligation (the same
+        # mechanism carries several properties)
+        self.also = tuple(also)
         self.fn = fn
         self.shapes = shapes
         self.functions = functions
@@ -42,7 +45,8 @@ class Obligation(object):
 
 
 def obligation(oid, shapes, functions, assumes=(), patches=None, title="",
-               max_paths=20000, timeout=(120, 900), query_timeout=(60, 600)):
+               max_paths=20000, timeout=(120, 900), query_timeout=(60, 600),
+               also=()):
     """decorator registering fn(I, shape) as obligation <oid>
 
     shapes: callable tier -> list of JSON-able shape dicts
@@ -54,7 +58,7 @@ def obligation(oid, shapes, functions, assumes=(), patches=None, title="",
     def deco(fn):
         REGISTRY[oid] = Obligation(oid, fn, shapes, list(functions),
                                    list(assumes), patches, title, max_paths,
-                                   timeout, query_timeout)
+                                   timeout, query_timeout, also)
         return fn
     return deco
 
@@ -368,7 +372,8 @@ def run_property(prop, tier="quick", seed=0, only=None, jobs=None,
     t0 = time.time()
     for m in modules or []:
         importlib.import_module(m)
-    obls = [o for o in REGISTRY.values() if o.prop == prop]
+    obls = [o for o in REGISTRY.values()
+            if o.prop == prop or prop in o.also]
     if only:
         obls = [o for o in obls if o.id in only or
                 any(o.id.startswith(x) for x in only)]
